@@ -2,5 +2,5 @@
 EXTENDS Frame
 CoreSizesB(m) == {24, 25, m - 1, m}
 OOBLensB(m) == {0, 1, m - 1, m, m + 1}
-InputProps == IntegrityGuards /\ OOBNeverEntersFecOrKcp /\ SessionOnlyForNewConversation /\ ForeignConvNeverMerged
+InputProps == IntegrityGuards /\ OOBNeverEntersFecOrKcp /\ OOBOnlyOwnConversation /\ SessionOnlyForNewConversation /\ ForeignConvNeverMerged
 =============================================================================
